@@ -45,6 +45,25 @@ def run_unit(args):
     pid, modname, uname, fname, params, budget, known_ids = args
     t0 = time.time()
     res = dict(unit=uname, func=fname, params=params, ok=False)
+    fw = budget.get("framework", "twisted")
+    if fw != os.environ.get("VERIF_FRAMEWORK", "twisted"):
+        # a unit for the other networking framework: txaio can be bound only once per process -> fresh interpreter
+        env = dict(os.environ)
+        env["VERIF_FRAMEWORK"] = fw
+        env["PYTHONPATH"] = VERIF + os.pathsep + env.get("PYTHONPATH", "")
+        try:
+            p = subprocess.run([PY, "-m", "symx.runner", "--exec-unit"], input=json.dumps(list(args)).encode(), capture_output=True,
+                               cwd=VERIF, env=env, timeout=budget.get("wall_s", 600) + 120)
+            for line in p.stdout.decode(errors="replace").splitlines():
+                if line.startswith("UNIT-RESULT "):
+                    out = json.loads(line[len("UNIT-RESULT "):])
+                    out["framework"] = fw
+                    return out
+            res["error"] = "fresh-interpreter unit gave no result: rc=%s %s" % (p.returncode, p.stderr.decode(errors="replace")[-1500:])
+        except Exception as e:  # noqa
+            res["error"] = "fresh-interpreter unit failed: %r" % (e,)
+        res["wall_s"] = time.time() - t0
+        return res
     try:
         from symx import instr
         instr.install()
@@ -86,10 +105,11 @@ def run_unit(args):
     return json.loads(json.dumps(_jsonable(res)))
 
 
-def plain_run(modname, fname, params, inputs, timeout=120):
+def plain_run(modname, fname, params, inputs, timeout=120, framework="twisted"):
     """run one harness concretely on the PLAIN (uninstrumented) import in a fresh interpreter"""
     job = json.dumps(dict(mod=modname, func=fname, params=params, inputs=inputs))
     env = dict(os.environ)
+    env["VERIF_FRAMEWORK"] = framework
     env["PYTHONPATH"] = VERIF + os.pathsep + env.get("PYTHONPATH", "")
     p = subprocess.run([PY, "-m", "symx.replay", "--job", "-"], input=job.encode(), capture_output=True,
                        cwd=VERIF, env=env, timeout=timeout)
@@ -100,7 +120,15 @@ def plain_run(modname, fname, params, inputs, timeout=120):
 
 
 def plain_batch(jobs, timeout=600):
+    if jobs and any(j.get("framework", "twisted") != jobs[0].get("framework", "twisted") for j in jobs):
+        out = [None] * len(jobs)
+        for fw in sorted({j.get("framework", "twisted") for j in jobs}):
+            idx = [i for i, j in enumerate(jobs) if j.get("framework", "twisted") == fw]
+            for i, o in zip(idx, plain_batch([jobs[i] for i in idx], timeout)):
+                out[i] = o
+        return out
     env = dict(os.environ)
+    env["VERIF_FRAMEWORK"] = jobs[0].get("framework", "twisted") if jobs else "twisted"
     env["PYTHONPATH"] = VERIF + os.pathsep + env.get("PYTHONPATH", "")
     p = subprocess.run([PY, "-m", "symx.replay", "--batch", "-"], input=json.dumps(jobs).encode(),
                        capture_output=True, cwd=VERIF, env=env, timeout=timeout)
@@ -113,7 +141,32 @@ def plain_batch(jobs, timeout=600):
     return out
 
 
+def exec_unit_main():
+    """child mode: run one unit in this fresh interpreter (framework from VERIF_FRAMEWORK)"""
+    args = json.loads(sys.stdin.read())
+    sys.path.insert(0, VERIF)
+    from symx import instr
+    instr.install()
+    fw = os.environ.get("VERIF_FRAMEWORK", "twisted")
+    import txaio
+    if fw == "asyncio":
+        txaio.use_asyncio()
+    else:
+        txaio.use_twisted()
+    saved = os.dup(2)
+    dn = os.open(os.devnull, os.O_WRONLY)
+    os.dup2(dn, 2)
+    try:
+        out = run_unit(tuple(args))
+    finally:
+        os.dup2(saved, 2)
+    sys.stdout.write("UNIT-RESULT " + json.dumps(out) + "\n")
+    return 0
+
+
 def main(argv=None):
+    if (argv or sys.argv[1:])[:1] == ["--exec-unit"]:
+        return exec_unit_main()
     ap = argparse.ArgumentParser()
     ap.add_argument("pid")
     ap.add_argument("--tier", default=os.environ.get("VERIF_TIER", "quick"), choices=["quick", "thorough"])
@@ -129,7 +182,7 @@ def main(argv=None):
 
     if a.replay:
         job = json.load(open(a.replay))
-        r = plain_run(job["mod"], job["func"], job["params"], job["inputs"])
+        r = plain_run(job["mod"], job["func"], job["params"], job["inputs"], framework=job.get("framework", "twisted"))
         print(json.dumps(r, indent=1))
         if r.get("failures"):
             print("VIOLATION property=%s replay=%s" % (pid, a.replay))
@@ -229,7 +282,7 @@ def main(argv=None):
             if "error" in c:
                 problems.append("unit %s: instrumented concrete run of sample %s failed: %s" % (r["unit"], label, c["error"]))
                 continue
-            diff_jobs.append(dict(mod=modname, func=r["func"], params=r["params"], inputs=c["inputs"]))
+            diff_jobs.append(dict(mod=modname, func=r["func"], params=r["params"], inputs=c["inputs"], framework=r.get("framework", "twisted")))
             diff_meta.append((r, label, c))
     validated = 0
     if diff_jobs:
@@ -260,12 +313,12 @@ def main(argv=None):
     seen = set()
     for r, v in violations:
         job = dict(pid=pid, mod=modname, unit=r["unit"], func=r["func"], params=r["params"], inputs=v["inputs"],
-                   label=v["label"], info=v.get("info"))
+                   label=v["label"], info=v.get("info"), framework=r.get("framework", "twisted"))
         h = stable_hash([job["unit"], job["label"], job["inputs"]])
         if h in seen:
             continue
         seen.add(h)
-        o = plain_run(modname, r["func"], r["params"], v["inputs"])
+        o = plain_run(modname, r["func"], r["params"], v["inputs"], framework=r.get("framework", "twisted"))
         if o.get("failures"):
             path = os.path.join(REPLAY_DIR, "%s-%s.json" % (pid, h))
             json.dump(job, open(path, "w"), indent=1)
@@ -274,7 +327,7 @@ def main(argv=None):
             unreproduced.append((job, o))
     known_confirmed = []
     for kid, (r, w) in known_hits.items():
-        o = plain_run(modname, r["func"], r["params"], w["inputs"])
+        o = plain_run(modname, r["func"], r["params"], w["inputs"], framework=r.get("framework", "twisted"))
         if o.get("failures"):
             known_confirmed.append((kid, w))
         else:
